@@ -431,11 +431,104 @@ def spec_visibility():
                 argsets={"key": ["w"], "link_attribute": ["w"]}, pre=set_attr)
 
 
+def spec_jointrecurrencenetwork():
+    from pyunicorn.timeseries import JointRecurrenceNetwork
+
+    def make(rng):
+        n = rng.choice([9, 11])
+        x = np.array([rng.randrange(0, 9) / 2 for _ in range(n)])
+        y = np.array([rng.randrange(0, 9) / 2 for _ in range(n)])
+        o = JointRecurrenceNetwork(x, y, threshold=(1.25, 1.75), silence_level=3)
+        o._verif = ("threshold", (1.25, 1.75))
+        o._verif_ts = (x, y)
+        return o
+
+    def twin(o):
+        kind, val = o._verif
+        return JointRecurrenceNetwork(o._verif_ts[0], o._verif_ts[1], silence_level=3, **{kind: val})
+
+    def st(o, rng):
+        v = rng.choice([t for t in ((0.75, 1.25), (1.75, 2.25), (2.25, 0.75), (2.75, 2.75))
+                        if ("threshold", t) != o._verif])
+        o.set_fixed_threshold(v)
+        o._verif = ("threshold", v)
+
+    def rr(o, rng):
+        v = rng.choice([r for r in ((0.3, 0.4), (0.5, 0.5), (0.6, 0.3))
+                        if ("recurrence_rate", r) != o._verif])
+        o.set_fixed_recurrence_rate(v)
+        o._verif = ("recurrence_rate", v)
+    return dict(cls=JointRecurrenceNetwork, make=make, twin=twin,
+                mutators={"set_fixed_threshold": st, "set_fixed_recurrence_rate": rr},
+                summary=["N", "n_links", "link_density", "adjacency", "recurrence_matrix()",
+                         "recurrence_rate()", "determinism()", "laminarity()"], argsets={})
+
+
+def spec_crossrecurrenceplot():
+    from pyunicorn.timeseries import CrossRecurrencePlot
+
+    def make(rng):
+        x = np.array([rng.randrange(0, 9) / 2 for _ in range(rng.choice([8, 10]))])
+        y = np.array([rng.randrange(0, 9) / 2 for _ in range(rng.choice([7, 9]))])
+        o = CrossRecurrencePlot(x, y, threshold=1.25, silence_level=3)
+        o._verif = ("threshold", 1.25)
+        o._verif_ts = (x, y)
+        return o
+
+    def twin(o):
+        kind, val = o._verif
+        return CrossRecurrencePlot(o._verif_ts[0], o._verif_ts[1], silence_level=3, **{kind: val})
+
+    def st(o, rng):
+        v = rng.choice([t for t in (0.75, 1.75, 2.25, 2.75) if ("threshold", t) != o._verif])
+        o.set_fixed_threshold(v)
+        o._verif = ("threshold", v)
+
+    def rr(o, rng):
+        v = rng.choice([r for r in (0.2, 0.35, 0.5, 0.65) if ("recurrence_rate", r) != o._verif])
+        o.set_fixed_recurrence_rate(v)
+        o._verif = ("recurrence_rate", v)
+    return dict(cls=CrossRecurrencePlot, make=make, twin=twin,
+                mutators={"set_fixed_threshold": st, "set_fixed_recurrence_rate": rr},
+                summary=["N", "M", "recurrence_matrix()", "cross_recurrence_rate()", "balance()"],
+                argsets={})
+
+
+def spec_interacting():
+    from pyunicorn.core import InteractingNetworks
+
+    def make(rng):
+        n = rng.choice([6, 7])
+        A = conn_graph(rng, n)
+        net = InteractingNetworks(adjacency=A, node_weights=[rng.choice([1.0, 1.5, 2.0])
+                                                             for _ in range(n)], silence_level=3)
+        net.set_link_attribute("w", sym_attr(rng, A))
+        net.set_link_attribute("v", sym_attr(rng, A))
+        return net
+
+    def twin(o):
+        t = InteractingNetworks(adjacency=o.adjacency, directed=o.directed,
+                                node_weights=o.node_weights.copy(), silence_level=3)
+        copy_link_attrs(o, t)
+        return t
+    L1, L2 = "[0, 2, 4]", "[1, 3, 5]"
+    summ = [f"{m}({L1}, {L2})" for m in
+            ("cross_degree", "cross_link_density", "cross_average_path_length",
+             "cross_closeness", "cross_transitivity", "cross_local_clustering",
+             "nsi_cross_degree", "nsi_cross_local_clustering", "cross_path_lengths")] + \
+        [f"{m}({L1})" for m in ("internal_degree", "internal_path_lengths", "internal_closeness",
+                                 "number_internal_links")] + \
+        [f"cross_average_path_length({L1}, {L2}, 'w')", f"cross_link_attribute('w', {L1}, {L2})"]
+    return dict(cls=InteractingNetworks, make=make, twin=twin, mutators=NET_MUT,
+                summary=SUMMARY_NET + summ, argsets={}, only_summary=True)
+
+
 SPECS = {
     "Network": spec_network, "GeoNetwork": spec_geonetwork, "ClimateNetwork": spec_climatenetwork,
     "RecurrencePlot": spec_recurrenceplot, "RecurrenceNetwork": spec_recurrencenetwork,
     "ResNetwork": spec_resnetwork, "ClimateData": spec_climatedata, "Surrogates": spec_surrogates,
-    "VisibilityGraph": spec_visibility,
+    "VisibilityGraph": spec_visibility, "JointRecurrenceNetwork": spec_jointrecurrencenetwork,
+    "CrossRecurrencePlot": spec_crossrecurrenceplot, "InteractingNetworks": spec_interacting,
 }
 
 SKIP_QUERIES = {"cache_clear", "_nsi_betweenness"}
@@ -539,6 +632,11 @@ def run(ctx):
             for m, kw in usable:
                 try:
                     before[(m, str(kw))] = quiet(getattr(obj, m), **kw)
+                except Exception:  # noqa
+                    pass
+            for expr in spec["summary"]:       # populate whatever the summaries memoise
+                try:
+                    eval_summary(obj, expr)
                 except Exception:  # noqa
                     pass
             try:
